@@ -50,7 +50,7 @@ ASSUMPTIONS = [
     "task-group ownership is observed behaviourally (which block's exit waits for / cancels a parked probe task)",
 ]
 MINIMUMS = {"monitor:state-restored": 100000, "monitor:scope-restored": 5000, "monitor:taskgroup-restored": 5000, "monitor:exception-identity": 500,
-            "probes_after_fault": 3000, "faults:disposable-enter": 100, "faults:disposable-exit": 100, "faults:child": 100, "faults:body-exception": 300, "injections_delivered": 500, "programs_leaving_a_block_after_the_scopes_it_was_spawned_from": 9}
+            "probes_after_fault": 3000, "faults:disposable-enter": 100, "faults:disposable-exit": 100, "faults:child": 100, "faults:body-exception": 300, "injections_delivered": 500, "programs_leaving_a_block_after_the_scopes_it_was_spawned_from": 9, "body_exceptions_handed_back_by_resources": 100}
 JOBS = {"quick": 4, "thorough": 16}
 OPTIMIZED_SHARDS = {"quick": 2, "thorough": 16}  # the same cases once more under `python -O`
 LEVEL_TEXT = (
@@ -104,6 +104,14 @@ def fault_variants(prog: list[dict[str, Any]], rng: random.Random):  # noqa: ANN
             if not any(d["exit"] == "true" for d in b["disposables"]):
                 b["disposables"][0]["exit"] = "true"
             yield p, {"block": blk["name"], "kind": blk["kind"], "fault": "body-exception", "exit": ex, "disposable_returns_true": True}
+        # fault-free disposables that raise the exception they were handed again (what `except BaseException: ...; raise` in a hand
+        # written __aexit__ does): for Python the same as not handling it - no cleanup has failed, the body's exception reaches the caller
+        for ex, nd in (("raise-exc", 2), ("raise-base", 2), ("cancel-self", 2), ("raise-keyerror", 3), ("raise-exc", 1)):
+            p = copy.deepcopy(base)
+            b = blocks_of(p)[bi]
+            b["exit"] = {"kind": ex}
+            b["disposables"] = [{"yield": [], "enter": "ok", "exit": ("hand-back", "gate-hand-back", "hand-back")[i]} for i in range(nd)]
+            yield p, {"block": blk["name"], "kind": blk["kind"], "fault": "body-exception", "exit": ex, "disposables_hand_the_exception_back": nd}
         # disposables: subsets failing in enter / exit
         for n in (1, 2, 3):
             for _ in range(2 if n > 1 else 4):
@@ -259,7 +267,12 @@ def judge(R: Recorder, prog: list[dict[str, Any]], meta: dict[str, Any], out: di
         R.monitor("exception-identity", caught is None, where={**w0, "kind": "normal-exit-raised"}, detail=f"body of {fault_block} returned normally, yet its caller caught {caught!r}", case=rec_case)
     if meta["fault"] == "body-exception" and fault_block in W.raised:
         raised, caught = W.raised[fault_block], W.caught.get(fault_block)
-        R.monitor("exception-identity", caught is raised, where={**w0, "kind": "exception-replaced-or-swallowed"}, detail=f"body of {fault_block} raised {raised!r}, its caller caught {caught!r}", case=rec_case)
+        same = caught is raised
+        if meta.get("disposables_hand_the_exception_back"):
+            R.count("body_exceptions_handed_back_by_resources")
+            if isinstance(raised, asyncio.CancelledError):
+                same = isinstance(caught, asyncio.CancelledError)  # asyncio re-creates a cancellation raised again by a resource: a cancellation it is
+        R.monitor("exception-identity", same, where={**w0, "kind": "exception-replaced-or-swallowed"}, detail=f"body of {fault_block} raised {raised!r}, its caller caught {caught!r}", case=rec_case)
 
 
 def explore_variant(R: Recorder, prog: list[dict[str, Any]], meta: dict[str, Any], rng: random.Random, cap: int) -> None:
